@@ -117,7 +117,7 @@ def run(ctx):
         size = k
         if k % 2 == 0 and rng.random() < 0.4:
             size = (k // 2, 2)
-        scale = rng.choice([1.0, 0.1, 1e-3, 7.3, 1.0 / 3.0, 1e-7, 1e5])
+        scale = rng.choice([1.0, 0.1, 1e-3, 7.3, 1.0 / 3.0, 1e-7, 1e5, 1e-13, 1e-20, 1e12])      # proportionality is scale-free: tiny and huge weights
         g = np.random.default_rng(rng.randrange(2 ** 32)) if t % 2 else np.random.RandomState(rng.randrange(2 ** 32))
         cid += 1
         allc.append(sus_case(cid, sus, wv, scale, k, size, g, wdtype=[None, None, "int64", "int32", None, "uint8" if max(wv) < 256 else "int64"][t % 6]))
